@@ -344,6 +344,30 @@ def stream_firstchar(ctx, tk):
         ctx.count('stream.E.codepoints', len(cps))
 
 
+ESCAPE_CPS = [0, 1, 9, 0xA, 0xC, 0xD, 0x1F, 0x20, 0x22, 0x27, 0x28, 0x29, 0x5C, 0x7B, 0x7D, 0x7F, 0x80, 0xA0, 0xFF, 0x100, 0xD7FF, 0xD800, 0xDBFF, 0xDC00, 0xDFFF, 0xE000,
+              0xFFFD, 0xFFFE, 0xFFFF, 0x10000, 0x10FFFE, 0x10FFFF, 0x110000, 0x110001, 0x1FFFFF, 0xFFFFFF]  # fmt: skip
+
+
+def stream_escapes(ctx, tk):
+    """hex escapes at the edges of the code space (first/last code point, surrogates, first value that is none) in every digit count,
+    letter case and terminator, in every token kind that decodes escapes"""
+    idx = 0
+    for cp in ESCAPE_CPS:
+        hx = '%x' % cp
+        spellings = {hx, hx.upper(), hx.rjust(6, '0') if len(hx) <= 6 else hx, hx.rjust(4, '0') if len(hx) <= 4 else hx}
+        for sp in sorted(spellings):
+            for term in ('', ' ', '\n', '\r\n', '\t', '\f', '  '):
+                esc = '\\' + sp + term
+                idx += 1
+                if not ctx.mine(idx):
+                    continue
+                ctx.count('stream.F.escapes')
+                for text in ('a' + esc + 'b', esc + 'b', esc, '#' + esc + 'b', '#a' + esc, '"' + esc + 'x"', "'x" + esc + "'", '@' + esc + 'x', '@m' + esc, '1' + esc + 'x', '1p' + esc,
+                             esc + 'x(', 'f' + esc + '(', 'url(' + esc + 'x)', 'url(x' + esc + ')', 'a{b:' + esc + 'c}', '-' + esc + 'x', esc + '-', 'u' + esc + 'l(x)'):  # fmt: skip
+                    check_text(ctx, tk, text, True, 'F')
+                    check_text(ctx, tk, text, False, 'F')
+
+
 # ---- error positions --------------------------------------------------------------------------------
 BASE_SHEETS = [
     'a {\n  color: red;\n  margin: 0 1px\n}\n\nb, c > d {\n  top: 1px\n}\n',
@@ -464,6 +488,7 @@ def run_worker(ctx):
     stream_sequences(ctx, tk, 150000 if quick else 2000000)
     stream_open(ctx, tk, 30000 if quick else 400000)
     stream_firstchar(ctx, tk)
+    stream_escapes(ctx, tk)
     stream_errpos(ctx, 8000 if quick else 100000)
 
 
